@@ -1,6 +1,7 @@
 package main
 
-// Source normalisation in front of the SmbCommands recogniser (smb_commands.go).
+// Source normalisation in front of the SmbCommands recogniser (smb_commands.go).  Further groups of rules, under the same
+// contract: smb_normalise2.go, smb_normalise3.go, smb_normalise4.go.
 //
 // The recogniser reads ONE dialect of Go: the statement shapes the 115 Marshal/Unmarshal bodies were written in.
 // This file rewrites other shapes THAT MEAN THE SAME into that dialect, statement list to statement list, before the
